@@ -568,7 +568,11 @@ func (c *tunnelChannel) close(err error) bool {
 
 	c.finished = true
 	if err == nil {
-		err = io.EOF
+		// If the underlying stream's context has already ended, then this
+		// is not a clean close: keep reporting that cause from Err().
+		if err = c.ctx.Err(); err == nil {
+			err = io.EOF
+		}
 	}
 	c.err = err
 	for _, st := range c.streams {
